@@ -1,0 +1,15 @@
+//go:build verif
+
+package nebula
+
+import "github.com/slackhq/nebula/noiseutil"
+
+// Verification hooks for the `decrypt` correspondence engine (add-only, no behaviour).
+
+// VerifDecryptNewCS builds a ConnectionState around the given receive cipher and a fresh window.
+func VerifDecryptNewCS(dKey noiseutil.CipherState, windowLen uint64) *ConnectionState {
+	return &ConnectionState{dKey: dKey, window: NewBits(windowLen)}
+}
+
+// VerifDecryptWindow exposes the tunnel's replay window.
+func VerifDecryptWindow(cs *ConnectionState) *Bits { return cs.window }
